@@ -336,10 +336,13 @@ class Interp:
                 if isinstance(v, (ast.Attribute,)) and src(v).startswith('self.'):
                     env[t] = K(POS)
                     continue
-                try:
-                    env[t] = self.ev(v, env)
-                except AnalysisError:
-                    raise
+                kinds = self.ev(v, env)
+                if EXC in kinds:
+                    self.res.raises.append((s, list(dec)))
+                    kinds = kinds - {EXC}
+                    if not kinds:
+                        return None
+                env[t] = kinds
                 if isinstance(v, ast.Subscript) and isinstance(v.slice, ast.Constant):
                     env['@alias:' + t] = '#%d' % v.slice.value
                 continue
